@@ -184,11 +184,12 @@ class MarkerExpression(SingleMarker):
         target = environment[self.name]
         if self.reversed:
             lhs, rhs = self.value, target
-            oper = _operators.get(get_reflect_op(self.op))
+            op = get_reflect_op(self.op)
         else:
             lhs, rhs = target, self.value
             assert isinstance(lhs, str)
-            oper = _operators.get(self.op)
+            op = self.op
+        oper = _operators.get(op)
         if self.name in MARKERS_ALLOWING_SET:
             lhs = normalize_name(lhs)
             if isinstance(rhs, set):
@@ -197,7 +198,7 @@ class MarkerExpression(SingleMarker):
                 rhs = normalize_name(rhs)
         if isinstance(rhs, str):
             try:
-                spec = Specifier(f"{self.op}{rhs}")
+                spec = Specifier(f"{op}{rhs}")
             except InvalidSpecifier:
                 pass
             else:
